@@ -5,8 +5,8 @@ use std::collections::BTreeMap;
 use ndarray::{ArrayD, IxDyn};
 
 use crate::common::{axis_family, Args, Axis};
-use crate::engine::calc::{diff_n, subst};
-use crate::engine::core::{explore, run_concrete, with_ctx, ExploreCfg, Mode, Rat, Sym};
+use crate::engine::calc::{diff_n, lit_vars, subst};
+use crate::engine::core::{explore, run_concrete, with_ctx, ExploreCfg, Lit, Mode, Rat, Sym};
 use crate::engine::json::Json;
 use crate::engine::report::{par_run, Chk, Report, Verdict};
 use crate::engine::smt::sx_to_rat;
@@ -117,9 +117,34 @@ pub fn problem_of(cfg: &Cfg, s: &Symbols, extrapolate: bool) -> SplineProblem<Sy
     SplineProblem { x: s.x.clone(), data: ArrayD::from_shape_vec(IxDyn(&shape), flat).unwrap(), bc: cfg.bc.clone(), vl: s.vl.clone(), vr: s.vr.clone(), extrapolate }
 }
 
+/// One feasible way the real code answers a query inside an interval: the decisions it took on the data and the
+/// boundary values while building (`build`, empty on a build that does not look at the values) and the per-lane terms
+pub struct Piece {
+    pub build: Vec<Lit>,
+    pub terms: Vec<Sym>,
+}
+fn build_key(b: &[Lit]) -> String {
+    let mut v: Vec<String> = b.iter().map(|l| format!("{l:?}")).collect();
+    v.sort();
+    v.join(";")
+}
+
 /// Explore the real code for a query strictly inside interval i; returns the distinct per-lane piece terms
 /// of all feasible paths, and non-Ok outcomes as text
 pub fn pieces_of_interval(chk: &mut Chk, cfg: &Cfg, s: &Symbols, prob: &SplineProblem<Sym>, i: usize) -> (Vec<Vec<Sym>>, Vec<String>) {
+    let (ps, bad) = piece_cases_of_interval(chk, cfg, s, prob, i);
+    let mut pieces: Vec<Vec<Sym>> = vec![];
+    for p in ps {
+        if !pieces.iter().any(|q| q.iter().zip(&p.terms).all(|(a, b)| a.0 == b.0)) {
+            pieces.push(p.terms);
+        }
+    }
+    (pieces, bad)
+}
+
+/// as `pieces_of_interval`, keeping apart the paths that differ in decisions taken on the data (build cases): a
+/// piece is only comparable with the pieces of the same build case, and its obligations hold under that case
+pub fn piece_cases_of_interval(chk: &mut Chk, cfg: &Cfg, s: &Symbols, prob: &SplineProblem<Sym>, i: usize) -> (Vec<Piece>, Vec<String>) {
     let n = cfg.axis.n();
     let mut ecfg = ExploreCfg::new(Mode::R, n - 1);
     ecfg.timeout_ms = cfg.timeout_ms;
@@ -129,14 +154,16 @@ pub fn pieces_of_interval(chk: &mut Chk, cfg: &Cfg, s: &Symbols, prob: &SplinePr
         prob.eval(&[s.q])
     });
     chk.add_explore_stats(paths.len(), &st);
-    let mut pieces: Vec<Vec<Sym>> = vec![];
+    let mut pieces: Vec<Piece> = vec![];
     let mut bad = vec![];
     for p in &paths {
         match &p.result {
             Ok(Ok(v)) => {
                 let t = v[0].clone();
-                if !pieces.iter().any(|q| q.iter().zip(&t).all(|(a, b)| a.0 == b.0)) {
-                    pieces.push(t);
+                let build: Vec<Lit> = p.pc.iter().filter(|l| !lit_vars(l).iter().any(|v| v == "q")).cloned().collect();
+                let key = build_key(&build);
+                if !pieces.iter().any(|q| build_key(&q.build) == key && q.terms.iter().zip(&t).all(|(a, b)| a.0 == b.0)) {
+                    pieces.push(Piece { build, terms: t });
                 }
             }
             Ok(Err(e)) => bad.push(format!("returned error: {e}")),
@@ -304,63 +331,88 @@ pub fn check_config(prop: &str, cfg: &Cfg) -> Report {
     let lanes = cfg.lanes();
     let s = make_symbols(cfg);
     let prob = problem_of(cfg, &s, false);
-    // pieces of every interval
-    let mut pieces: Vec<Vec<Sym>> = vec![];
+    // pieces of every interval, per build case
+    let mut per_interval: Vec<Vec<Piece>> = vec![];
     for i in 0..n - 1 {
-        let (ps, bad) = pieces_of_interval(&mut chk, cfg, &s, &prob, i);
+        let (ps, bad) = piece_cases_of_interval(&mut chk, cfg, &s, &prob, i);
         for b in bad {
             chk.finding(&format!("{prop}:in-range-query-not-answered"), &format!("{}: query inside interval {i} {b}", cfg.name()), Json::obj().with("config", cfg.name()).with("interval", i).with("outcome", b.as_str()), Some(true));
         }
         if ps.is_empty() {
             return chk.rep;
         }
-        if ps.len() > 1 {
-            // different feasible paths (other initial guesses) returned different terms for the same interval:
-            // every one of them must satisfy the obligations; check equality among them instead
-            for other in &ps[1..] {
-                for j in 0..lanes {
-                    let a = [format!("(not (= {} {}))", chk.term(ps[0][j]), chk.term(other[j]))];
-                    if let Verdict::Cex(_) = chk.must_unsat("piece-unique", &format!("piece-unique[{i}] lane {j}"), &a, &[]) {
-                        chk.finding(&format!("{prop}:piece-depends-on-lookup-path"), &format!("{}: interval {i} lane {j}: two feasible lookup paths return different polynomials", cfg.name()), Json::obj().with("config", cfg.name()), None);
-                    }
-                }
-            }
-        }
-        pieces.push(ps[0].clone());
+        per_interval.push(ps);
     }
     let all_vars: Vec<String> = with_ctx(|c| c.var_names.clone());
     for v in &all_vars {
         chk.term(Sym::var(v)); // make sure every model variable is declared in the obligation session
     }
+    // build cases: the unchanged crate builds without looking at the values (one case, no assumptions); a build that
+    // branches on data or boundary values is checked case by case, each under the decisions that select it
+    let mut cases: Vec<Vec<Lit>> = vec![];
+    for p in &per_interval[0] {
+        if !cases.iter().any(|c| build_key(c) == build_key(&p.build)) {
+            cases.push(p.build.clone());
+        }
+    }
+    if cases.len() > 1 || !cases[0].is_empty() {
+        chk.rep.notes.push("the build branches on data / boundary values: obligations are discharged per build case under its decisions".into());
+    }
     let mut first_canary_done = false;
-    for lane in 0..lanes {
-        let obls = if prop == "C02" { c02_obligations(n, &cfg.axis.x) } else { c03_obligations(n, &cfg.axis.x, &cfg.bc, lane) };
-        for ob in &obls {
-            let (l, r) = (qty_term(&pieces, &s, lane, &ob.lhs), qty_term(&pieces, &s, lane, &ob.rhs));
-            let name = format!("{} lane {lane}", ob.name);
-            if l.0 == r.0 {
-                chk.trivially_holds(&ob.family);
-                continue;
+    for case in &cases {
+        let key = build_key(case);
+        let under: Vec<String> = chk.pc(case);
+        let mut pieces: Vec<Vec<Sym>> = vec![];
+        for (i, ps) in per_interval.iter().enumerate() {
+            let mine: Vec<&Piece> = ps.iter().filter(|p| build_key(&p.build) == key).collect();
+            if mine.is_empty() {
+                chk.rep.errors.push(format!("{}: build case {key} has no path in interval {i} (the build is not a function of the inputs alone?)", cfg.name()));
+                return chk.rep;
             }
-            let a = [format!("(not (= {} {}))", chk.term(l), chk.term(r))];
-            match chk.must_unsat(&ob.family, &name, &a, &all_vars) {
-                Verdict::Holds | Verdict::Inconclusive(_) => {}
-                Verdict::Cex(vals) => {
-                    let model: BTreeMap<String, Rat> = vals.iter().filter_map(|(k, v)| sx_to_rat(v).map(|r| (k.clone(), r))).collect();
-                    let (rep, rec) = replay_model(cfg, ob, lane, &model);
-                    let class = if cfg.axis.name == "uniform" { "uniform-axis" } else { "non-uniform-axis" };
-                    let key = format!("{prop}:{}:{}:n{}", ob.family, class, if n == 3 { "=3" } else { ">=4" });
-                    chk.finding(&key, &format!("{}: obligation {} fails for lane {lane}", cfg.name(), ob.name), rec, rep);
+            // different feasible lookup paths (other initial guesses) returned different terms for the same interval
+            // and the same build: they must be the same function
+            for other in &mine[1..] {
+                for j in 0..lanes {
+                    let mut a = under.clone();
+                    a.push(format!("(not (= {} {}))", chk.term(mine[0].terms[j]), chk.term(other.terms[j])));
+                    if let Verdict::Cex(_) = chk.must_unsat("piece-unique", &format!("piece-unique[{i}] lane {j}"), &a, &[]) {
+                        chk.finding(&format!("{prop}:piece-depends-on-lookup-path"), &format!("{}: interval {i} lane {j}: two feasible lookup paths return different polynomials", cfg.name()), Json::obj().with("config", cfg.name()), None);
+                    }
                 }
             }
-            // canary: the same quantity compared against a deliberately wrong right-hand side must be refutable
-            if !first_canary_done {
-                if let Qty::Piece { i, order, at: Some(_) } = &ob.lhs {
-                    let wrong_at = cfg.axis.x[*i].add(cfg.axis.x[*i + 1]).unwrap().div(Rat(2, 1)).unwrap();
-                    let wl = qty_term(&pieces, &s, lane, &Qty::Piece { i: *i, order: *order, at: Some(wrong_at) });
-                    let a = [format!("(not (= {} {}))", chk.term(wl), chk.term(r))];
-                    chk.canary(&format!("{} evaluated at the interval midpoint instead", ob.name), &a);
-                    first_canary_done = true;
+            pieces.push(mine[0].terms.clone());
+        }
+        for lane in 0..lanes {
+            let obls = if prop == "C02" { c02_obligations(n, &cfg.axis.x) } else { c03_obligations(n, &cfg.axis.x, &cfg.bc, lane) };
+            for ob in &obls {
+                let (l, r) = (qty_term(&pieces, &s, lane, &ob.lhs), qty_term(&pieces, &s, lane, &ob.rhs));
+                let name = format!("{} lane {lane}", ob.name);
+                if l.0 == r.0 {
+                    chk.trivially_holds(&ob.family);
+                    continue;
+                }
+                let mut a = under.clone();
+                a.push(format!("(not (= {} {}))", chk.term(l), chk.term(r)));
+                match chk.must_unsat(&ob.family, &name, &a, &all_vars) {
+                    Verdict::Holds | Verdict::Inconclusive(_) => {}
+                    Verdict::Cex(vals) => {
+                        let model: BTreeMap<String, Rat> = vals.iter().filter_map(|(k, v)| sx_to_rat(v).map(|r| (k.clone(), r))).collect();
+                        let (rep, rec) = replay_model(cfg, ob, lane, &model);
+                        let class = if cfg.axis.name == "uniform" { "uniform-axis" } else { "non-uniform-axis" };
+                        let key = format!("{prop}:{}:{}:n{}", ob.family, class, if n == 3 { "=3" } else { ">=4" });
+                        chk.finding(&key, &format!("{}: obligation {} fails for lane {lane}", cfg.name(), ob.name), rec, rep);
+                    }
+                }
+                // canary: the same quantity compared against a deliberately wrong right-hand side must be refutable
+                if !first_canary_done {
+                    if let Qty::Piece { i, order, at: Some(_) } = &ob.lhs {
+                        let wrong_at = cfg.axis.x[*i].add(cfg.axis.x[*i + 1]).unwrap().div(Rat(2, 1)).unwrap();
+                        let wl = qty_term(&pieces, &s, lane, &Qty::Piece { i: *i, order: *order, at: Some(wrong_at) });
+                        let mut a = under.clone();
+                        a.push(format!("(not (= {} {}))", chk.term(wl), chk.term(r)));
+                        chk.canary(&format!("{} evaluated at the interval midpoint instead", ob.name), &a);
+                        first_canary_done = true;
+                    }
                 }
             }
         }
@@ -369,27 +421,37 @@ pub fn check_config(prop: &str, cfg: &Cfg) -> Report {
         // through the data at the API level: q = x_i exactly (the lookup picks the piece itself)
         for i in 0..n {
             let qi = s.x[i];
-            let r = run_concrete(Mode::R, || prob.eval(&[qi]));
-            match r {
-                Ok(Ok(v)) => {
-                    for lane in 0..lanes {
-                        if v[0][lane].0 == s.y[i][lane].0 {
-                            chk.trivially_holds("knot-api");
-                            continue;
-                        }
-                        let a = [format!("(not (= {} {}))", chk.term(v[0][lane]), chk.term(s.y[i][lane]))];
-                        if let Verdict::Cex(vals) = chk.must_unsat("knot-api", &format!("knot-api[{i}] lane {lane}"), &a, &all_vars) {
-                            let mut rec = Json::obj().with("config", cfg.name()).with("knot", i).with("lane", lane);
-                            let mut mj = Json::obj();
-                            for (k, v) in &vals {
-                                mj.set(k, v.as_str());
+            let mut ecfg = ExploreCfg::new(Mode::R, n - 1);
+            ecfg.timeout_ms = cfg.timeout_ms;
+            let (paths, st) = explore(&ecfg, || prob.eval(&[qi]));
+            chk.add_explore_stats(paths.len(), &st);
+            if paths.is_empty() {
+                chk.rep.errors.push(format!("{}: no feasible path for the query at knot {i}", cfg.name()));
+            }
+            for p in &paths {
+                match &p.result {
+                    Ok(Ok(v)) => {
+                        let under = chk.pc(&p.pc);
+                        for lane in 0..lanes {
+                            if v[0][lane].0 == s.y[i][lane].0 {
+                                chk.trivially_holds("knot-api");
+                                continue;
                             }
-                            rec.set("model", mj);
-                            chk.finding(&format!("C02:knot-not-reproduced"), &format!("{}: interp(x[{i}]) != data[{i}] for lane {lane}", cfg.name()), rec, None);
+                            let mut a = under.clone();
+                            a.push(format!("(not (= {} {}))", chk.term(v[0][lane]), chk.term(s.y[i][lane])));
+                            if let Verdict::Cex(vals) = chk.must_unsat("knot-api", &format!("knot-api[{i}] lane {lane}"), &a, &all_vars) {
+                                let mut rec = Json::obj().with("config", cfg.name()).with("knot", i).with("lane", lane);
+                                let mut mj = Json::obj();
+                                for (k, v) in &vals {
+                                    mj.set(k, v.as_str());
+                                }
+                                rec.set("model", mj);
+                                chk.finding(&format!("C02:knot-not-reproduced"), &format!("{}: interp(x[{i}]) != data[{i}] for lane {lane}", cfg.name()), rec, None);
+                            }
                         }
                     }
+                    other => chk.finding(&format!("C02:knot-query-not-answered"), &format!("{}: query at knot {i}: {:?}", cfg.name(), other.as_ref().map(|r| r.as_ref().map(|_| ()))), Json::obj().with("config", cfg.name()).with("knot", i), Some(true)),
                 }
-                other => chk.finding(&format!("C02:knot-query-not-answered"), &format!("{}: query at knot {i}: {:?}", cfg.name(), other.map(|r| r.map(|_| ()))), Json::obj().with("config", cfg.name()).with("knot", i), Some(true)),
             }
         }
     }
@@ -406,7 +468,7 @@ pub fn configs(prop: &str, args: &Args) -> Vec<Cfg> {
     // 8, search windows) are seen on every change
     let mut sizes: Vec<(usize, usize)> = (3..=nmax).map(|n| (n, per_n)).collect();
     if !thorough {
-        sizes.extend([(9, 5), (11, 5), (13, 4)]);
+        sizes.extend([(9, 7), (11, 7), (13, 6)]);
     }
     for (n, per_n) in sizes {
         for (ai, axis) in axis_family(n, per_n, args.seed).into_iter().enumerate() {
